@@ -179,8 +179,10 @@ def make_resolver(coord, bundle=None):
                     raise UserError(tf[2], user_message=tf[0], extensions=dict(tf[1]), **preset)
                 raise UserError(tf[0], extensions=dict(tf[1]), **preset)
             if kind == "raise_odd":
-                from simv.model.exec import EmptyMessageError, PathCarryingError, PayloadError, UnprintableError
-                which = zlib.crc32(repr(path).encode()) % 4
+                from simv.model.exec import EmptyMessageError, FrozenError, PathCarryingError, PayloadError, UnprintableError
+                which = zlib.crc32(repr(path).encode()) % 5
+                if which == 4:
+                    raise FrozenError("odd " + tok)
                 if which == 0:
                     raise UnprintableError()
                 if which == 1:
